@@ -237,7 +237,12 @@ def readFromStream(substrate, size=-1, context=None):
     """
     while True:
         # this will block unless stream is non-blocking
-        received = substrate.read(size)
+        try:
+            received = substrate.read(size)
+
+        except OverflowError:
+            raise error.PyAsn1Error(
+                'Cannot read %s octets at once' % size)
         if received is None:  # non-blocking stream can do this
             yield error.SubstrateUnderrunError(context=context)
 
